@@ -67,3 +67,29 @@ func VerifPickerUpstreams(p EndpointPicker) ([]string, string) {
 	}
 	return out, strategy
 }
+
+// VerifSchemaConfigs renders, per flow-control schema the cluster's limiter knows, the strategy in force and the
+// schema configuration its local limiter was last synced with (read-only).
+func (c *ClusterInfo) VerifSchemaConfigs() map[string]string {
+	out := map[string]string{}
+	for name, fc := range c.flowcontrol.AllFlowControls() {
+		cfg := fc.LocalFlowControl().Config()
+		out[name] = fmt.Sprintf("strategy=%q config.strategy=%q config=%+v", fc.Strategy(), cfg.Strategy, describeSchema(cfg))
+	}
+	return out
+}
+
+func describeSchema(s interface{}) string {
+	v := reflect.ValueOf(s)
+	var parts []string
+	if v.Kind() == reflect.Struct {
+		if f := v.FieldByName("FlowControlSchemaConfiguration"); f.IsValid() {
+			for i := 0; i < f.NumField(); i++ {
+				if m := f.Field(i); m.Kind() == reflect.Ptr && !m.IsNil() {
+					parts = append(parts, fmt.Sprintf("%s%+v", f.Type().Field(i).Name, m.Elem().Interface()))
+				}
+			}
+		}
+	}
+	return fmt.Sprint(parts)
+}
